@@ -3,6 +3,7 @@ import XalanModel.Generated.C10_Priority
 import XalanModel.Generated.C09_KeyTable
 import XalanModel.Generated.C09_StepPredicate
 import XalanModel.Generated.C09_FromRoot
+import XalanModel.Generated.C09_NodeTester
 /-!
 # C09 — consumers that pre-filter candidate nodes by target data
 
